@@ -352,7 +352,7 @@ PPL::Grid::remove_higher_space_dimensions(const dimension_type new_dimension) {
       // Count the actual number of rows that are now redundant.
       dimension_type num_redundant = 0;
       const dimension_type num_old_gs = space_dim - new_dimension;
-      for (dimension_type row = 0; row < num_old_gs; ++row) {
+      for (dimension_type row = space_dim; row > new_dimension; --row) {
         if (dim_kinds[row] != GEN_VIRTUAL) {
           ++num_redundant;
         }
